@@ -404,6 +404,43 @@ def rule_consumers(chk, prog, tier):
     r.exhaustive = True
 
 
+def rule_condfold(chk, prog, tier):
+    r = chk.rule('C04.g', 'a conditional expression with a constant condition is either left for run-time evaluation or folded to the arm C selects: integer conditions by value != 0, floating conditions by comparison with 0 (never by bit pattern)', floor=10)
+    fn = prog.require_func('condexpr')
+    M = models(prog)
+    conds = [('int', 0, False), ('int', 2, True), ('uint', 1 << 31, True), ('long', 1 << 40, True), ('double', 0.0, False), ('double', -0.0, False), ('double', 0.5, True),
+             ('float', -0.0, False), ('float', 1.0, True), ('nonconst', None, None)]
+    for ty, val, truth in conds:
+        def runner(it):
+            w = World(prog, it=it, target='x86_64-sysv')
+            if ty == 'nonconst': c = w.temp(w.t('int'), 'c')
+            else: c = mkconst(w, w.t(ty), val)
+            l = w.temp(w.t('int'), 'L'); rr = w.temp(w.t('int'), 'R')
+            seq = [c, rr]
+            q = [1, 0]
+            it.models['binaryexpr'] = lambda i2, a, e: seq.pop(0)
+            it.models['consume'] = lambda i2, a, e: q.pop(0)
+            it.models['expr'] = lambda i2, a, e: l
+            it.models['expect'] = lambda i2, a, e: None
+            it.models['xmalloc'] = lambda i2, a, e: Ptr(Obj('heap', 'heap'), ())
+            res = it.call(fn, [Ptr(Obj('scope', 'heap'), ())])
+            k = it.load(res.obj, ('kind',))
+            base = res
+            while it.load(base.obj, ('kind',)) == ev(prog, 'EXPRCAST'):
+                base = it.load(base.obj, ('base',))
+            return ('cond' if k == ev(prog, 'EXPRCOND') else 'L' if base == l else 'R' if base == rr else 'other')
+        runs = explore(prog, runner, M, max_runs=4)
+        if len(runs) != 1 or runs[0].outcome != 'return':
+            raise AnalysisBroken('condexpr: %s' % [(x.outcome, x.detail) for x in runs])
+        got = runs[0].value
+        if truth is None:
+            ok = got == 'cond'; want = 'an unfolded conditional'
+        else:
+            ok = got in ('cond', 'L' if truth else 'R'); want = 'the %s arm (or no folding)' % ('first' if truth else 'second')
+        r.instance(ok, 'condfold:%s:%r' % (ty, val), 'expr.c:%s' % fn.get('line'), 'constant condition (%s) %r must select %s; cproc folds to %s' % (ty, val, want, got))
+    r.exhaustive = False
+
+
 def run(chk, tier):
     prog = facts.programs()['cproc-qbe']
     chk.guard('C04.a', lambda: rule_fold_table(chk, prog, tier))
@@ -412,3 +449,4 @@ def run(chk, tier):
     chk.guard('C04.d', lambda: rule_cast_arms(chk, prog, tier))
     chk.guard('C04.e', lambda: rule_logical(chk, prog, tier))
     chk.guard('C04.f', lambda: rule_consumers(chk, prog, tier))
+    chk.guard('C04.g', lambda: rule_condfold(chk, prog, tier))
